@@ -451,6 +451,9 @@ TIES = {
     'ReturnPath': dict(props=['C08', 'C17'], gen=['ReturnHandlerCall', 'TraceReturnVoid', 'TraceReturnValue'],
                        theorems=['return_path_tie', 'return_evaluated_once'],
                        cxx='return_handler_t::call and the two trace_return<Ret> helpers (mock.hpp): the RETURN functor is evaluated once'),
+    'DecayReturn': dict(props=['C08', 'C09'], gen=['DecayReturnType'],
+                        theorems=['decay_return_table_tie', 'lvalue_return_is_same_object', 'rvalue_return_is_value', 'array_return_is_pointer'],
+                        cxx='the overload set of decay_return_type (mock.hpp): what a RETURN expression becomes on its way out of the clause'),
     'Compare': dict(props=['C10'], gen=['CompareTable', 'ParamMatchesMatcher', 'ParamMatchesValue', 'PredicateMatches', 'MemberIsCheck', 'AnyPredicate'],
                     theorems=['compare_table_tie', 'opOf_cmp', 'compare_matcher_tie', 'param_matches_matcher_tie', 'param_matches_value_tie',
                               'member_is_tie', 'any_predicate_tie'],
